@@ -200,6 +200,12 @@ def check_no_lost_call(repo: Repo, rep: Report, sums: List[OpSummary]):
             sites[0],
             what=f"{s.name}: bare ast.Call pushed",
         )
+    for s in sums:
+        for p in s.normal:
+            for meth, line in p.state.body_other:
+                if meth in ("__len__", "__iter__", "__getitem__", "index", "count"):
+                    continue
+                rep.bad("C03.no-lost-call", s.oc.cls.qualname + ".run", f"handler-edits-body:{meth}", f"{s.name} calls module_body.{meth}(...) (line {line}): an opcode handler edits or removes statements that earlier opcodes already emitted, so an emitted call/import (or the binding a later GET/DUP refers to) can disappear from the decompiled program", s.run.file, line)
     callmakers = [s for s in sums if s.name in CALL_SPEC and not s.refuses]
     for s in callmakers:
         if not any(ss is s for ss, _, _ in B):
